@@ -6,9 +6,16 @@
 //
 // Path tokens
 //
-//	b/<lp>/<aslen>/<origin>/<med>/<ebgp>/<bgpid>/<origid>/<cl>/<src>/<nh>/<pathid>/<other>
+//	b/<lp>/<aslen>/<origin>/<med>/<ebgp>/<bgpid>/<origid>/<cl>/<src>/<nh>/<pathid>/<other>[/<ign>]
 //	    cl = n (no CLUSTER_LIST) | e (empty list) | v1.v2...   ip = [L]<hi>:<lo> (L: IPv4 form)
-//	s/<nh>                      static path
+//	    other = mixed-radix code of what only Compare() reads: communities {nil,[c],[]} + 3*(large
+//	            communities {nil,[l]} + 2*(unknown attrs {none,one} + 2*(ATOMIC_AGGREGATE + 2*(AGGREGATOR
+//	            {nil,a,b} + 3*AS_PATH variant)))); AS_PATH variant (same length, different contents):
+//	            0 one AS_SEQUENCE 65000.. | 1 first ASN 64999 | 2 first ASN 64998 | 3 leading AS_SET;
+//	            for length 0: 0 one empty AS_SEQUENCE | 1 no segment | 2 nil AS_PATH pointer
+//	    ign   = bits of what neither Select nor Compare reads: 1 OTC, 2 BMPPostPolicy, 4 LTime,
+//	            8 HiddenReason, 16 RedistributedFrom
+//	s/<nh>[/<ign>]              static path
 //	x/<type>                    malformed: Type set, all protocol pointers nil
 //
 // Cases (first input token)
@@ -42,15 +49,15 @@ type IPD struct {
 }
 
 type PD struct {
-	Kind                              byte // 'b', 's', 'x'
-	LP, ASLen, Origin, MED            uint32
-	EBGP                              bool
-	BGPID, OrigID                     uint32
-	CLNil                             bool
-	CL                                []uint32
-	Src, NH                           IPD
-	PathID, Other                     uint32
-	XType                             uint8
+	Kind                   byte // 'b', 's', 'x'
+	LP, ASLen, Origin, MED uint32
+	EBGP                   bool
+	BGPID, OrigID          uint32
+	CLNil                  bool
+	CL                     []uint32
+	Src, NH                IPD
+	PathID, Other, Ign     uint32
+	XType                  uint8
 }
 
 func (i IPD) String() string {
@@ -101,6 +108,9 @@ func b2i(b bool) int {
 func (d PD) Token() string {
 	switch d.Kind {
 	case 's':
+		if d.Ign != 0 {
+			return fmt.Sprintf("s/%s/%d", d.NH.String(), d.Ign)
+		}
 		return "s/" + d.NH.String()
 	case 'x':
 		return fmt.Sprintf("x/%d", d.XType)
@@ -117,8 +127,44 @@ func (d PD) Token() string {
 			cl = strings.Join(p, ".")
 		}
 	}
-	return fmt.Sprintf("b/%d/%d/%d/%d/%d/%d/%d/%s/%s/%s/%d/%d", d.LP, d.ASLen, d.Origin, d.MED, b2i(d.EBGP),
+	t := fmt.Sprintf("b/%d/%d/%d/%d/%d/%d/%d/%s/%s/%s/%d/%d", d.LP, d.ASLen, d.Origin, d.MED, b2i(d.EBGP),
 		d.BGPID, d.OrigID, cl, d.Src, d.NH, d.PathID, d.Other)
+	if d.Ign != 0 {
+		t += fmt.Sprintf("/%d", d.Ign)
+	}
+	return t
+}
+
+// Extras: the components of Other
+type Extras struct{ Comm, LComm, Unk, Atomic, Aggr, ASV uint32 }
+
+func (d PD) Extras() Extras {
+	o := d.Other
+	var e Extras
+	e.Comm, o = o%3, o/3
+	e.LComm, o = o%2, o/2
+	e.Unk, o = o%2, o/2
+	e.Atomic, o = o%2, o/2
+	e.Aggr, o = o%3, o/3
+	e.ASV = o
+	return e
+}
+
+func (e Extras) Code() uint32 {
+	return e.Comm + 3*(e.LComm+2*(e.Unk+2*(e.Atomic+2*(e.Aggr+3*e.ASV))))
+}
+
+// OtherMax: largest valid Other
+const OtherMax = 287
+
+func (d PD) otherValid() bool {
+	if d.Other > OtherMax {
+		return false
+	}
+	if d.ASLen == 0 && d.Extras().ASV > 2 {
+		return false
+	}
+	return true
 }
 
 func ParsePD(tok string) (PD, error) {
@@ -136,8 +182,15 @@ func ParsePD(tok string) (PD, error) {
 	var err error
 	switch d.Kind {
 	case 's':
-		if len(f) != 2 {
+		if len(f) != 2 && len(f) != 3 {
 			return d, bad
+		}
+		if len(f) == 3 {
+			v, e := u(f[2], 8)
+			if e != nil || v > 31 {
+				return d, bad
+			}
+			d.Ign = v
 		}
 		d.NH, err = parseIP(f[1])
 		return d, err
@@ -149,7 +202,7 @@ func ParsePD(tok string) (PD, error) {
 		d.XType = uint8(v)
 		return d, err
 	case 'b':
-		if len(f) != 13 {
+		if len(f) != 13 && len(f) != 14 {
 			return d, bad
 		}
 		errs := make([]error, 0)
@@ -182,7 +235,13 @@ func ParsePD(tok string) (PD, error) {
 		if len(errs) > 0 {
 			return d, errs[0]
 		}
-		if d.ASLen > 200 || d.Other > 1 {
+		if len(f) == 14 {
+			d.Ign = get(f[13], 8)
+		}
+		if len(errs) > 0 {
+			return d, errs[0]
+		}
+		if d.ASLen > 200 || !d.otherValid() || d.Ign > 31 {
 			return d, bad
 		}
 		return d, nil
@@ -190,37 +249,103 @@ func ParsePD(tok string) (PD, error) {
 	return d, bad
 }
 
+func (d PD) decorate(p *route.Path) *route.Path {
+	if d.Ign&4 != 0 {
+		p.LTime = 1234
+	}
+	if d.Ign&8 != 0 {
+		p.HiddenReason = route.HiddenReasonFilteredByPolicy
+	}
+	if d.Ign&16 != 0 {
+		p.RedistributedFrom = route.StaticPathType
+	}
+	return p
+}
+
+// asPath: an AS_PATH of length d.ASLen whose contents depend on the variant
+func (d PD) asPath() *types.ASPath {
+	v := d.Extras().ASV
+	if d.ASLen == 0 {
+		switch v {
+		case 1:
+			return &types.ASPath{}
+		case 2:
+			return nil
+		}
+		return &types.ASPath{{Type: types.ASSequence, ASNs: []uint32{}}}
+	}
+	n := d.ASLen
+	var segs types.ASPath
+	if v == 3 {
+		segs = append(segs, types.ASPathSegment{Type: types.ASSet, ASNs: []uint32{64999, 64998}})
+		n--
+	}
+	asns := make([]uint32, n)
+	for i := range asns {
+		asns[i] = 65000 + uint32(i) + d.ASLen - n
+	}
+	if n > 0 && (v == 1 || v == 2) {
+		asns[0] = 65000 - v
+	}
+	if n > 0 || v != 3 {
+		segs = append(segs, types.ASPathSegment{Type: types.ASSequence, ASNs: asns})
+	}
+	return &segs
+}
+
 // Path builds the real route.Path (a fresh object on every call).
 func (d PD) Path() *route.Path {
 	switch d.Kind {
 	case 's':
-		return &route.Path{Type: route.StaticPathType, StaticPath: &route.StaticPath{NextHop: d.NH.ip()}}
+		return d.decorate(&route.Path{Type: route.StaticPathType, StaticPath: &route.StaticPath{NextHop: d.NH.ip()}})
 	case 'x':
 		return &route.Path{Type: d.XType}
 	}
-	asns := make([]uint32, d.ASLen)
-	for i := range asns {
-		asns[i] = 65000 + uint32(i)
+	e := d.Extras()
+	asp := d.asPath()
+	alen := uint16(0)
+	if asp != nil {
+		alen = asp.Length() // as the UPDATE decoder sets it
 	}
-	asp := &types.ASPath{{Type: types.ASSequence, ASNs: asns}}
+	if uint32(alen) != d.ASLen {
+		panic(fmt.Sprintf("harness: AS_PATH of %s has length %d", d.Token(), alen))
+	}
 	b := &route.BGPPath{
 		BGPPathA: &route.BGPPathA{
 			NextHop: d.NH.ip(), Source: d.Src.ip(), LocalPref: d.LP, MED: d.MED, BGPIdentifier: d.BGPID,
-			OriginatorID: d.OrigID, EBGP: d.EBGP, Origin: uint8(d.Origin),
+			OriginatorID: d.OrigID, EBGP: d.EBGP, Origin: uint8(d.Origin), AtomicAggregate: e.Atomic == 1,
 		},
 		ASPath:         asp,
-		ASPathLen:      asp.Length(), // as the UPDATE decoder sets it
+		ASPathLen:      alen,
 		PathIdentifier: d.PathID,
+	}
+	if e.Aggr > 0 {
+		b.BGPPathA.Aggregator = &types.Aggregator{Address: 0x0a000000 + e.Aggr, ASN: uint16(64500 + e.Aggr)}
+	}
+	if d.Ign&1 != 0 {
+		b.BGPPathA.OnlyToCustomer = 7
+	}
+	if d.Ign&2 != 0 {
+		b.BMPPostPolicy = true
 	}
 	if !d.CLNil {
 		cl := make(types.ClusterList, len(d.CL))
 		copy(cl, d.CL)
 		b.ClusterList = &cl
 	}
-	if d.Other == 1 {
+	switch e.Comm {
+	case 1:
 		b.Communities = &types.Communities{65000<<16 | 1}
+	case 2:
+		b.Communities = &types.Communities{}
 	}
-	return &route.Path{Type: route.BGPPathType, BGPPath: b}
+	if e.LComm == 1 {
+		b.LargeCommunities = &types.LargeCommunities{{GlobalAdministrator: 65000, DataPart1: 1, DataPart2: 2}}
+	}
+	if e.Unk == 1 {
+		b.UnknownAttributes = []types.UnknownPathAttribute{{Optional: true, Transitive: true, TypeCode: 200, Value: []byte{1, 2}}}
+	}
+	return d.decorate(&route.Path{Type: route.BGPPathType, BGPPath: b})
 }
 
 // ---------------------------------------------------------------- oracle (RFC 4271 9.1.2.2, RFC 4456 9)
@@ -351,7 +476,7 @@ func EqualCost(a, b PD) bool {
 
 // CmpToken: canonical text of everything Compare() reads (the IPv4/IPv6 form of an address is not read)
 func (d PD) CmpToken() string {
-	d.Src.Legacy, d.NH.Legacy = false, false
+	d.Src.Legacy, d.NH.Legacy, d.Ign = false, false, 0
 	return d.Token()
 }
 
